@@ -20,10 +20,12 @@
                  (instance of C07_cp_reported_is_sqerr, exactly) and is (reported relative error * ||X||)^2 up to rounding.
    * Modes     : the modes updated by the first sweep of parafac / non_negative_parafac_hals == the model's reading of fixed_modes.
    * TkSweep   : a whole HOOI sweep block by block + the error reported for it (multi-step).
+   * Loop      : the outer loop with its stopping rule (Model/DescentLoop.v) replayed on the values an implementation run recorded (reported errors /
+                 norms of the weight tensor): the model stops after exactly as many iterations as the implementation did.
    * Norm      : cp_normalize on states of normalize_factors runs (and states with an all-zero column): model == implementation,
                  squared error exactly unchanged by the model's normalisation. *)
 From Coq Require Import List Arith ZArith QArith Qabs Bool.
-From TLV Require Import Base.Shape Base.PyList Base.Tensor Base.Ops Model.Descent Model.DescentReport Model.DescentModes Corr.Common.
+From TLV Require Import Base.Shape Base.PyList Base.Tensor Base.Ops Model.Descent Model.DescentReport Model.DescentModes Model.DescentLoop Corr.Common.
 Import ListNotations.
 
 Definition qmat := list (list Q).
@@ -349,13 +351,19 @@ Definition modes_agree (c : modescase) : bool :=
                   else if cp_all_fixed (md_n c) (md_fixed c) then [] else cp_modes_list (md_n c) (md_fixed c) in
   natl_eqb (md_observed c) expected.
 
+(* the outer loop with the stopping rule of the algorithm (0 parafac / nn-HALS, 1 tucker, 2 parafac2, 3 tensor_ring_als, 4 CMTF, 5 regressors),
+   replayed on the recorded history (oldest first): number of iterations == the implementation's *)
+Record loopcase := mkLp { lp_alg : nat; lp_abs : bool; lp_tol : Q; lp_nmax : nat; lp_tape : list Q; lp_iters : nat }.
+Definition loop_agree (c : loopcase) : bool :=
+  Nat.eqb (tape_iters Qops (rule_of Qops (lp_alg c) (lp_abs c) (lp_tol c)) (lp_nmax c) (lp_tape c)) (lp_iters c).
+
 Inductive body := CPBlock (c : cpcase) | Hals (c : halscase) | LSBlock (c : lscase) | Norm (c : normcase) | RegBlock (c : regcase)
                 | TkBlock (c : tkcase) | CmtfBlock (c : cmtfcase) | TkRegBlock (c : tkregcase) | TRBlock (c : trcase)
-                | SpecCert (c : speccase) | ProcCert (c : proccase) | CPReport (c : repcase) | TkSweep (c : tksweepcase) | Modes (c : modescase).
+                | SpecCert (c : speccase) | ProcCert (c : proccase) | CPReport (c : repcase) | TkSweep (c : tksweepcase) | Modes (c : modescase) | Loop (c : loopcase).
 Definition case := (nat * body)%type.
 Definition agree (c : case) : bool :=
   match snd c with CPBlock b => cp_agree b | Hals b => hals_agree b | LSBlock b => ls_agree b | Norm b => norm_agree b | RegBlock b => reg_agree b
   | TkBlock b => tk_agree b | CmtfBlock b => cmtf_agree b | TkRegBlock b => tkreg_agree b | TRBlock b => tr_agree b
-  | SpecCert b => spec_agree b | ProcCert b => proc_agree b | CPReport b => rep_agree b | TkSweep b => tksweep_agree b | Modes b => modes_agree b end.
+  | SpecCert b => spec_agree b | ProcCert b => proc_agree b | CPReport b => rep_agree b | TkSweep b => tksweep_agree b | Modes b => modes_agree b | Loop b => loop_agree b end.
 Definition ident (c : case) : nat := fst c.
 Definition failing := failing_ids agree ident.
